@@ -20,3 +20,5 @@ pub mod c14;
 pub mod c16;
 pub mod c17;
 pub mod c19;
+#[cfg(feature = "serde")]
+pub mod c20;
